@@ -127,6 +127,21 @@ def copy_storage(skind, storage, tmp):
     return (LocalStorage(t2) if skind == 'local' else LocalFsspecStorage(t2)), t2
 
 
+def second_handle(skind, storage, tmp):
+    """Another storage object for the same place."""
+    if skind == 'mem':
+        c = MemStorage()
+        c.d = storage.d
+        return c
+    if skind == 'fsmem':
+        c = MemFsspecStorage.__new__(MemFsspecStorage)
+        labtech.storage.FsspecStorage.__init__(c, str(storage._storage_path))
+        return c
+    if skind == 'null':
+        return None
+    return LocalStorage(tmp) if skind == 'local' else LocalFsspecStorage(tmp)
+
+
 def listing(skind, storage):
     if skind == 'null':
         return []
@@ -136,10 +151,18 @@ def listing(skind, storage):
 def replay_history(cfg, hist, check_last_only=True):
     """Replays `hist`; returns (violations, canonical state)."""
     skind, kind = cfg[0], cfg[1]
-    reuse_lab = len(cfg) > 2 and cfg[2] == 'one-lab'
+    mode = cfg[2] if len(cfg) > 2 else None
+    reuse_lab = mode == 'one-lab'
+    # 'same-tasks': the very same task objects serve the whole history (whatever an operation leaves on
+    # them - result_meta, a results map - is there for the next one).
+    # 'observer': every operation goes through a fresh Lab over its *own* storage object for the same
+    # place, while one long-lived Lab + storage object only observes (after every step) - state kept
+    # inside a storage / cache / Lab object that another object's writes do not refresh would show.
     silence_labtech()
     storage, tmp = make_storage(skind)
     shared_lab = labtech.Lab(storage=storage, runner_backend='serial', notebook=False) if reuse_lab else None
+    fixed_tasks = build_tasks(kind) if mode == 'same-tasks' else None
+    observer_lab = labtech.Lab(storage=storage, runner_backend='serial', notebook=False) if mode == 'observer' else None
     model = Model(kind, persistent=(skind != 'null'))
     viols = []
     extra_keys = 0
@@ -148,8 +171,9 @@ def replay_history(cfg, hist, check_last_only=True):
             epoch = step + 1
             failing = (op[3],) if op[0] == 'runfail' else ()
             U.WORLD.reset(epoch=epoch, faults=[NODES[i][0] for i in failing])
-            tasks = build_tasks(kind)
-            lab = shared_lab or labtech.Lab(storage=storage, runner_backend='serial', notebook=False)
+            tasks = fixed_tasks or build_tasks(kind)
+            lab = shared_lab or labtech.Lab(storage=(second_handle(skind, storage, tmp) if mode == 'observer' else storage),
+                                            runner_backend='serial', notebook=False)
             last = (step == len(hist) - 1)
             d = f'cfg={cfg} history={hist[:step + 1]}'
             try:
@@ -170,11 +194,18 @@ def replay_history(cfg, hist, check_last_only=True):
                 if last:
                     viols.append((f'op-raised:{type(e).__name__}', f'{d}: {type(e).__name__}: {e}'))
                 return viols, None
+            if observer_lab is not None and not last:
+                # the observer looks after every step (its answers are only judged at the end)
+                try:
+                    observer_lab.cached_tasks([U.TYPES[kind], U.TN])
+                    [observer_lab.is_cached(t) for t in build_tasks(kind)]
+                except BaseException:  # noqa
+                    pass
             if not last and check_last_only:
                 continue
             # observers (on the same Lab object when the configuration reuses one Lab for the whole history)
             tasks = build_tasks(kind)
-            lab = shared_lab or labtech.Lab(storage=storage, runner_backend='serial', notebook=False)
+            lab = shared_lab or observer_lab or labtech.Lab(storage=storage, runner_backend='serial', notebook=False)
             cached = [lab.is_cached(t) for t in tasks]
             wantc = [i in model.d for i in range(len(NODES))]
             if cached != wantc:
@@ -298,9 +329,10 @@ def _j(x):
 def run(tier: str, seed: int) -> Result:
     silence_labtech()
     if tier == 'quick':
-        cfgs = [(('mem', 'TA'), 3), (('mem', 'TA', 'one-lab'), 3), (('mem', 'TJ'), 2), (('mem', 'T2'), 2), (('local', 'TA'), 2), (('fsspec', 'TA'), 2), (('fsmem', 'TA'), 2), (('null', 'TA'), 2)]
+        cfgs = [(('mem', 'TA'), 3), (('mem', 'TA', 'one-lab'), 3), (('mem', 'TA', 'same-tasks'), 3), (('fsspec', 'TA', 'observer'), 2), (('local', 'TA', 'observer'), 2), (('mem', 'TJ'), 2), (('mem', 'T2'), 2), (('local', 'TA'), 2), (('fsspec', 'TA'), 2), (('fsmem', 'TA'), 2), (('null', 'TA'), 2)]
     else:
-        cfgs = [(('mem', 'TA'), 4), (('mem', 'TA', 'one-lab'), 4), (('local', 'TA', 'one-lab'), 3), (('mem', 'TJ'), 3), (('mem', 'T2'), 3), (('local', 'TA'), 3), (('fsspec', 'TA'), 3),
+        cfgs = [(('mem', 'TA'), 4), (('mem', 'TA', 'one-lab'), 4), (('local', 'TA', 'one-lab'), 3), (('mem', 'TA', 'same-tasks'), 4), (('local', 'TJ', 'same-tasks'), 3),
+                (('fsspec', 'TA', 'observer'), 3), (('local', 'TA', 'observer'), 3), (('fsmem', 'TA', 'observer'), 3), (('mem', 'TJ', 'observer'), 3), (('mem', 'TJ'), 3), (('mem', 'T2'), 3), (('local', 'TA'), 3), (('fsspec', 'TA'), 3),
                 (('local', 'TJ'), 2), (('fsspec', 'TJ'), 2), (('fsmem', 'TA'), 3), (('fsmem', 'TJ'), 2), (('null', 'TA'), 3)]
     stats = {'states': 0, 'transitions': 0, 'revisits': 0, 'frontier_sizes': []}
     viols: list = []
@@ -327,7 +359,7 @@ def run(tier: str, seed: int) -> Result:
         'exhaustive': True,
     }
     return Result('C08', 'model_checking', cov, assumptions=[
-        'fresh Lab and task objects per operation, plus configurations in which ONE Lab object serves the whole history (state kept inside a Lab object would show)',
+        'fresh Lab and task objects per operation, plus configurations in which ONE Lab object serves the whole history, in which the SAME task objects serve the whole history, and in which one long-lived Lab + storage object observes after every step while the operations go through other storage objects for the same place',
         'FsspecStorage exercised over fsspec LocalFileSystem (the reference implementation quoted in storage.py)',
     ], violations=viols)
 
